@@ -59,6 +59,9 @@ def run(run):
         sp = sendpaths.get(f)
         pairing(run, f, sp)
         record_fn(run, f)
+        # a failed delivery records its dead letter and returns the error: neither the recorder nor the delivery function panics
+        from rules import sendrules
+        sendrules.delivery_never_panics(run, f, "O13.7")
 
 
 def flows_to_return(sp, site, st):
